@@ -109,7 +109,7 @@ func runVirtual(r *walkRec) (calls [][]int, pm string) {
 			}
 			return len(kids[ids[nd]])
 		},
-		Child:      func(nd commonmark.Node, i int) commonmark.Node { return nodes[kids[ids[nd]][i]] },
+		Child: func(nd commonmark.Node, i int) commonmark.Node { return nodes[kids[ids[nd]][i]] },
 	}
 	if !r.PreNil {
 		opts.Pre = func(c *commonmark.Cursor) bool {
